@@ -7,7 +7,7 @@ torch.normal call, the sigma recorded by the accountant and the clipped norm of 
 from py.harness.common import *
 import torch.nn as nn
 from opacus import GradSampleModule
-from opacus.optimizers import DPOptimizer
+from opacus.optimizers import DPOptimizer, DPPerLayerOptimizer
 from opacus.accountants import RDPAccountant
 from opacus.schedulers import (ExponentialNoise, LambdaNoise, StepNoise,
                                ExponentialGradClip, LambdaGradClip, StepGradClip)
@@ -20,7 +20,11 @@ def build(case, init_nm, init_c):
     nn.init.zeros_(lin.weight)
     gsm = GradSampleModule(lin, loss_reduction='sum')
     inner = torch.optim.SGD(lin.parameters(), lr=0.0)
-    opt = DPOptimizer(inner, noise_multiplier=init_nm, max_grad_norm=init_c, expected_batch_size=1, loss_reduction='sum')
+    if case.get('opt') == 'per_layer':
+        # per-layer clipping: the scheduled scalar max_grad_norm is the norm of the list of per-layer bounds (one tensor here)
+        opt = DPPerLayerOptimizer(inner, noise_multiplier=init_nm, max_grad_norm=[init_c], expected_batch_size=1, loss_reduction='sum')
+    else:
+        opt = DPOptimizer(inner, noise_multiplier=init_nm, max_grad_norm=init_c, expected_batch_size=1, loss_reduction='sum')
     acc = RDPAccountant()
     opt.attach_step_hook(acc.get_optimizer_hook_fn(sample_rate=0.01))
     fam, kind = case['family'], case['kind']
